@@ -420,6 +420,20 @@ fn record_workload(rec: &mut Recorder, rng: &mut Rng, root: &Path, size: usize) 
             take_snap(&mut r, rec);
         }
     }
+    // at least six commits, so that both root slots have been rewritten before the crash
+    // scenarios that tear the newest slot
+    let mut guard = 0;
+    while commits_done(&log.borrow()) < 6 && guard < 24 {
+        guard += 1;
+        nonce += 1;
+        let body = gen_body(rng, &p);
+        let act = KAction { cmds: vec![(Priority::Basic(rng.below(3) as u32), body)], nonce, init: false };
+        match r.action(act) {
+            Ok(_) => rec.count("live:action_ok"),
+            Err(e) => rec.count(&format!("live:action_err:{}", err_name(&e))),
+        }
+        take_snap(&mut r, rec);
+    }
     drop(r);
     let _ = verif_io_log::stop();
     let calls = log.borrow().clone();
@@ -669,6 +683,27 @@ fn gen_chis(rng: &mut Rng, sim: &Sim, budget: usize) -> Vec<Vec<String>> {
             if b.len() > 8 {
                 let mut v = all("1");
                 v[i] = "p8".into();
+                out.push(v);
+            }
+        }
+    }
+    // always: "keep later, lose earlier" — for every split point the writes issued before it are
+    // lost and the ones after it kept (a later write reaching the medium before an earlier one
+    // is exactly what a missing barrier allows); and, whenever a root-area write is pending, each
+    // single earlier write lost while everything after it is kept
+    let splits: Vec<usize> = if m <= 12 { (1..m).collect() } else { (m - 12..m).collect() };
+    for i in splits {
+        let mut v = all("1");
+        for x in v.iter_mut().take(i) {
+            *x = "0".into();
+        }
+        out.push(v);
+    }
+    if let Some(last_root) = (0..m).rev().find(|&i| sim.pending[i].0 < FREE_START) {
+        for i in (0..last_root).rev().take(12) {
+            if sim.pending[i].0 >= FREE_START {
+                let mut v = all("1");
+                v[i] = "0".into();
                 out.push(v);
             }
         }
